@@ -56,6 +56,7 @@ pub struct AbsTok {
 
 // ---------------- input normalisation ----------------
 /// CR / CRLF -> LF given whether the previous raw character was a CR
+#[verifier::opaque]
 pub open spec fn norm(ig: bool, s: Seq<char>) -> Seq<char>
     decreases s.len()
 {
@@ -73,12 +74,16 @@ pub open spec fn lower(c: char) -> char { if is_upper(c) { ((c as u32) + 32) as 
 pub open spec fn script_str() -> Seq<char> { seq!['s', 'c', 'r', 'i', 'p', 't'] }
 pub open spec fn st(a: AbsTok, s: State) -> AbsTok { AbsTok { state: s, ..a } }
 pub open spec fn emit(a: AbsTok, t: OutTok) -> AbsTok { AbsTok { out: a.out.push(Out { tok: t, line: a.line }), ..a } }
-pub open spec fn emit_c(a: AbsTok, c: char) -> AbsTok { if c == '\0' { emit(a, OutTok::Null) } else { emit(a, OutTok::Char(c)) } }
-pub open spec fn emit_seq(a: AbsTok, s: Seq<char>) -> AbsTok
-    decreases s.len()
-{
-    if s.len() == 0 { a } else { emit_seq(emit(a, OutTok::Char(s[0])), s.drop_first()) }
+/// character tokens are compared after concatenation, so the log keeps one entry per character and
+/// no line for it (where a run of characters is cut into tokens is not part of the standard);
+/// NUL in text is its own token.
+pub open spec fn emit_ch(a: AbsTok, c: char) -> AbsTok { AbsTok { out: a.out.push(Out { tok: OutTok::Char(c), line: 0 }), ..a } }
+pub open spec fn emit_c(a: AbsTok, c: char) -> AbsTok { if c == '\0' { emit(a, OutTok::Null) } else { emit_ch(a, c) } }
+pub open spec fn chars_out(s: Seq<char>) -> Seq<Out> {
+    Seq::new(s.len(), |i: int| Out { tok: OutTok::Char(s[i]), line: 0 })
 }
+/// emit a character token for each character of `s` (none of them NUL)
+pub open spec fn emit_seq(a: AbsTok, s: Seq<char>) -> AbsTok { AbsTok { out: a.out + chars_out(s), ..a } }
 pub open spec fn emit_temp(a: AbsTok) -> AbsTok { AbsTok { temp: Seq::<char>::empty(), ..emit_seq(a, a.temp) } }
 pub open spec fn clear_temp(a: AbsTok) -> AbsTok { AbsTok { temp: Seq::<char>::empty(), ..a } }
 pub open spec fn push_temp(a: AbsTok, c: char) -> AbsTok { AbsTok { temp: a.temp.push(c), ..a } }
@@ -122,6 +127,7 @@ pub open spec fn has_attr(attrs: Seq<AbsAttr>, n: Seq<char>) -> bool {
 }
 /// "when the user agent leaves the attribute name state ... if there is already an attribute with
 /// the same name, the new attribute must be removed": done when the attribute is finished
+#[verifier::opaque]
 pub open spec fn finish_attr(a: AbsTok) -> AbsTok {
     if a.attr_name.len() == 0 { a }
     else if has_attr(a.attrs, a.attr_name) {
@@ -135,8 +141,10 @@ pub open spec fn create_attr(a: AbsTok, c: char) -> AbsTok { push_name(finish_at
 pub open spec fn appropriate_end_tag(a: AbsTok) -> bool {
     a.tag_kind == TagKind::EndTag && a.last_start == Some(a.tag_name)
 }
-/// emit the current tag token; the sink's answer selects the next state (default `next`)
-pub open spec fn emit_tag(a: AbsTok, next: State) -> AbsTok {
+/// emit the current tag token; the sink's answer selects the next state (default: the state
+/// the tokenizer has just switched to)
+#[verifier::opaque]
+pub open spec fn emit_tag_cur(a: AbsTok) -> AbsTok {
     let b = finish_attr(a);
     let tok = OutTok::Tag { kind: b.tag_kind, name: b.tag_name, self_closing: b.self_closing, attrs: b.attrs, dup: b.dup };
     let c = emit(b, tok);
@@ -147,13 +155,14 @@ pub open spec fn emit_tag(a: AbsTok, next: State) -> AbsTok {
         ..c
     };
     match sink_reply(d.out) {
-        SinkReply::Continue => st(d, next),
-        SinkReply::EncodingIndicator => st(d, next),
+        SinkReply::Continue => d,
+        SinkReply::EncodingIndicator => d,
         SinkReply::Plaintext => st(d, State::Plaintext),
         SinkReply::Script => st(d, State::Data),
         SinkReply::RawData(k) => st(d, State::RawData(k)),
     }
 }
+pub open spec fn emit_tag(a: AbsTok, next: State) -> AbsTok { emit_tag_cur(st(a, next)) }
 pub open spec fn start_cr(a: AbsTok) -> AbsTok {
     AbsTok { cr: Some(cr_new(a.state is AttributeValue)), ..a }
 }
@@ -161,11 +170,13 @@ pub open spec fn start_cr(a: AbsTok) -> AbsTok {
 // ======================================================================================
 // per-state transition functions (one normalised character `c`)
 // ======================================================================================
+#[verifier::opaque]
 pub open spec fn s_data(a: AbsTok, c: char) -> AbsTok {
     if c == '&' { start_cr(a) }
     else if c == '<' { st(a, State::TagOpen) }
     else { emit_c(a, c) }          // NUL: parse error, emitted as is
 }
+#[verifier::opaque]
 pub open spec fn s_rcdata(a: AbsTok, c: char) -> AbsTok {
     if c == '&' { start_cr(a) }
     else if c == '<' { st(a, State::RawLessThanSign(RawKind::Rcdata)) }
@@ -173,11 +184,13 @@ pub open spec fn s_rcdata(a: AbsTok, c: char) -> AbsTok {
     else { emit_c(a, c) }
 }
 /// RAWTEXT and script data
+#[verifier::opaque]
 pub open spec fn s_rawtext(a: AbsTok, k: RawKind, c: char) -> AbsTok {
     if c == '<' { st(a, State::RawLessThanSign(k)) }
     else if c == '\0' { emit_c(a, '\u{fffd}') }
     else { emit_c(a, c) }
 }
+#[verifier::opaque]
 pub open spec fn s_script_escaped(a: AbsTok, k: ScriptEscapeKind, c: char) -> AbsTok {
     if c == '-' { st(emit_c(a, '-'), State::ScriptDataEscapedDash(k)) }
     else if c == '<' {
@@ -189,6 +202,7 @@ pub open spec fn s_script_escaped(a: AbsTok, k: ScriptEscapeKind, c: char) -> Ab
     else if c == '\0' { emit_c(a, '\u{fffd}') }
     else { emit_c(a, c) }
 }
+#[verifier::opaque]
 pub open spec fn s_rawdata(a: AbsTok, k: RawKind, c: char) -> AbsTok {
     match k {
         RawKind::Rcdata => s_rcdata(a, c),
@@ -197,14 +211,17 @@ pub open spec fn s_rawdata(a: AbsTok, k: RawKind, c: char) -> AbsTok {
         RawKind::ScriptDataEscaped(e) => s_script_escaped(a, e, c),
     }
 }
+#[verifier::opaque]
 pub open spec fn s_plaintext(a: AbsTok, c: char) -> AbsTok {
     if c == '\0' { emit_c(a, '\u{fffd}') } else { emit_c(a, c) }
 }
+#[verifier::opaque]
 pub open spec fn s_bogus_comment(a: AbsTok, c: char) -> AbsTok {
     if c == '>' { st(emit_comment(a), State::Data) }
     else if c == '\0' { push_comment(a, '\u{fffd}') }
     else { push_comment(a, c) }
 }
+#[verifier::opaque]
 pub open spec fn s_tag_open(a: AbsTok, c: char) -> AbsTok {
     if c == '!' { st(a, State::MarkupDeclarationOpen) }
     else if c == '/' { st(a, State::EndTagOpen) }
@@ -212,11 +229,13 @@ pub open spec fn s_tag_open(a: AbsTok, c: char) -> AbsTok {
     else if c == '?' { s_bogus_comment(st(clear_comment(a), State::BogusComment), c) }
     else { s_data(st(emit_c(a, '<'), State::Data), c) }
 }
+#[verifier::opaque]
 pub open spec fn s_end_tag_open(a: AbsTok, c: char) -> AbsTok {
     if is_alpha(c) { st(create_tag(a, TagKind::EndTag, lower(c)), State::TagName) }
     else if c == '>' { st(a, State::Data) }
     else { s_bogus_comment(st(clear_comment(a), State::BogusComment), c) }
 }
+#[verifier::opaque]
 pub open spec fn s_tag_name(a: AbsTok, c: char) -> AbsTok {
     if is_ws(c) { st(a, State::BeforeAttributeName) }
     else if c == '/' { st(a, State::SelfClosingStartTag) }
@@ -225,6 +244,7 @@ pub open spec fn s_tag_name(a: AbsTok, c: char) -> AbsTok {
     else { push_tag(a, lower(c)) }
 }
 /// RCDATA / RAWTEXT / script data / script data escaped less-than sign states
+#[verifier::opaque]
 pub open spec fn s_raw_lt(a: AbsTok, k: RawKind, c: char) -> AbsTok {
     match k {
         RawKind::ScriptDataEscaped(ScriptEscapeKind::Escaped) => {
@@ -245,10 +265,12 @@ pub open spec fn s_raw_lt(a: AbsTok, k: RawKind, c: char) -> AbsTok {
         },
     }
 }
+#[verifier::opaque]
 pub open spec fn s_raw_end_tag_open(a: AbsTok, k: RawKind, c: char) -> AbsTok {
     if is_alpha(c) { st(push_temp(create_tag(a, TagKind::EndTag, lower(c)), c), State::RawEndTagName(k)) }
     else { s_rawdata(st(emit_c(emit_c(a, '<'), '/'), State::RawData(k)), k, c) }
 }
+#[verifier::opaque]
 pub open spec fn s_raw_end_tag_name(a: AbsTok, k: RawKind, c: char) -> AbsTok {
     if appropriate_end_tag(a) && is_ws(c) { st(clear_temp(a), State::BeforeAttributeName) }
     else if appropriate_end_tag(a) && c == '/' { st(clear_temp(a), State::SelfClosingStartTag) }
@@ -256,6 +278,7 @@ pub open spec fn s_raw_end_tag_name(a: AbsTok, k: RawKind, c: char) -> AbsTok {
     else if is_alpha(c) { push_temp(push_tag(a, lower(c)), c) }
     else { s_rawdata(st(emit_temp(emit_c(emit_c(discard_tag(a), '<'), '/')), State::RawData(k)), k, c) }
 }
+#[verifier::opaque]
 pub open spec fn s_script_escape_start(a: AbsTok, k: ScriptEscapeKind, c: char) -> AbsTok {
     match k {
         // script data escape start state
@@ -274,10 +297,12 @@ pub open spec fn s_script_escape_start(a: AbsTok, k: ScriptEscapeKind, c: char) 
         },
     }
 }
+#[verifier::opaque]
 pub open spec fn s_script_escape_start_dash(a: AbsTok, c: char) -> AbsTok {
     if c == '-' { st(emit_c(a, '-'), State::ScriptDataEscapedDashDash(ScriptEscapeKind::Escaped)) }
     else { s_rawdata(st(a, State::RawData(RawKind::ScriptData)), RawKind::ScriptData, c) }
 }
+#[verifier::opaque]
 pub open spec fn s_script_escaped_dash(a: AbsTok, k: ScriptEscapeKind, c: char) -> AbsTok {
     if c == '-' { st(emit_c(a, '-'), State::ScriptDataEscapedDashDash(k)) }
     else if c == '<' {
@@ -287,6 +312,7 @@ pub open spec fn s_script_escaped_dash(a: AbsTok, k: ScriptEscapeKind, c: char) 
     else if c == '\0' { st(emit_c(a, '\u{fffd}'), State::RawData(RawKind::ScriptDataEscaped(k))) }
     else { st(emit_c(a, c), State::RawData(RawKind::ScriptDataEscaped(k))) }
 }
+#[verifier::opaque]
 pub open spec fn s_script_escaped_dash_dash(a: AbsTok, k: ScriptEscapeKind, c: char) -> AbsTok {
     if c == '-' { emit_c(a, '-') }
     else if c == '<' {
@@ -297,6 +323,7 @@ pub open spec fn s_script_escaped_dash_dash(a: AbsTok, k: ScriptEscapeKind, c: c
     else if c == '\0' { st(emit_c(a, '\u{fffd}'), State::RawData(RawKind::ScriptDataEscaped(k))) }
     else { st(emit_c(a, c), State::RawData(RawKind::ScriptDataEscaped(k))) }
 }
+#[verifier::opaque]
 pub open spec fn s_script_double_escape_end(a: AbsTok, c: char) -> AbsTok {
     if is_ws(c) || c == '/' || c == '>' {
         let e = if a.temp == script_str() { ScriptEscapeKind::Escaped } else { ScriptEscapeKind::DoubleEscaped };
@@ -305,6 +332,7 @@ pub open spec fn s_script_double_escape_end(a: AbsTok, c: char) -> AbsTok {
     else if is_alpha(c) { emit_c(push_temp(a, lower(c)), c) }
     else { s_rawdata(st(a, State::RawData(RawKind::ScriptDataEscaped(ScriptEscapeKind::DoubleEscaped))), RawKind::ScriptDataEscaped(ScriptEscapeKind::DoubleEscaped), c) }
 }
+#[verifier::opaque]
 pub open spec fn s_attr_name(a: AbsTok, c: char) -> AbsTok {
     if is_ws(c) { st(a, State::AfterAttributeName) }
     else if c == '/' { st(a, State::SelfClosingStartTag) }
@@ -313,6 +341,7 @@ pub open spec fn s_attr_name(a: AbsTok, c: char) -> AbsTok {
     else if c == '\0' { push_name(a, '\u{fffd}') }
     else { push_name(a, lower(c)) }
 }
+#[verifier::opaque]
 pub open spec fn s_before_attr_name(a: AbsTok, c: char) -> AbsTok {
     if is_ws(c) { a }
     else if c == '/' { st(a, State::SelfClosingStartTag) }
@@ -322,6 +351,7 @@ pub open spec fn s_before_attr_name(a: AbsTok, c: char) -> AbsTok {
     else if c == '\0' { st(create_attr(a, '\u{fffd}'), State::AttributeName) }
     else { st(create_attr(a, lower(c)), State::AttributeName) }
 }
+#[verifier::opaque]
 pub open spec fn s_after_attr_name(a: AbsTok, c: char) -> AbsTok {
     if is_ws(c) { a }
     else if c == '/' { st(a, State::SelfClosingStartTag) }
@@ -330,6 +360,7 @@ pub open spec fn s_after_attr_name(a: AbsTok, c: char) -> AbsTok {
     else if c == '\0' { st(create_attr(a, '\u{fffd}'), State::AttributeName) }
     else { st(create_attr(a, lower(c)), State::AttributeName) }
 }
+#[verifier::opaque]
 pub open spec fn s_attr_value(a: AbsTok, k: AttrValueKind, c: char) -> AbsTok {
     match k {
         AttrValueKind::DoubleQuoted => {
@@ -353,6 +384,7 @@ pub open spec fn s_attr_value(a: AbsTok, k: AttrValueKind, c: char) -> AbsTok {
         },
     }
 }
+#[verifier::opaque]
 pub open spec fn s_before_attr_value(a: AbsTok, c: char) -> AbsTok {
     if is_ws(c) { a }
     else if c == '"' { st(a, State::AttributeValue(AttrValueKind::DoubleQuoted)) }
@@ -360,17 +392,20 @@ pub open spec fn s_before_attr_value(a: AbsTok, c: char) -> AbsTok {
     else if c == '>' { emit_tag(a, State::Data) }
     else { s_attr_value(st(a, State::AttributeValue(AttrValueKind::Unquoted)), AttrValueKind::Unquoted, c) }
 }
+#[verifier::opaque]
 pub open spec fn s_after_attr_value_quoted(a: AbsTok, c: char) -> AbsTok {
     if is_ws(c) { st(a, State::BeforeAttributeName) }
     else if c == '/' { st(a, State::SelfClosingStartTag) }
     else if c == '>' { emit_tag(a, State::Data) }
     else { s_before_attr_name(st(a, State::BeforeAttributeName), c) }
 }
+#[verifier::opaque]
 pub open spec fn s_self_closing(a: AbsTok, c: char) -> AbsTok {
     if c == '>' { emit_tag(AbsTok { self_closing: true, ..a }, State::Data) }
     else { s_before_attr_name(st(a, State::BeforeAttributeName), c) }
 }
 // ---- comments (quotient: see header) ----
+#[verifier::opaque]
 pub open spec fn s_comment(a: AbsTok, c: char) -> AbsTok {
     if c == '<' { st(push_comment(a, c), State::CommentLessThanSign) }
     else if c == '-' { st(a, State::CommentEndDash) }
@@ -380,70 +415,85 @@ pub open spec fn s_comment(a: AbsTok, c: char) -> AbsTok {
 /// "append c and stay in / switch to the comment state" for a character that the comment state
 /// would simply append (the '<' case lands in the comment-less-than-sign family, which the
 /// quotient identifies with the comment state)
+#[verifier::opaque]
 pub open spec fn comment_plain(a: AbsTok, c: char) -> AbsTok {
     if c == '\0' { st(push_comment(a, '\u{fffd}'), State::Comment) } else { st(push_comment(a, c), State::Comment) }
 }
+#[verifier::opaque]
 pub open spec fn s_comment_start(a: AbsTok, c: char) -> AbsTok {
     if c == '-' { st(a, State::CommentStartDash) }
     else if c == '>' { st(emit_comment(a), State::Data) }
     else { comment_plain(a, c) }
 }
+#[verifier::opaque]
 pub open spec fn s_comment_start_dash(a: AbsTok, c: char) -> AbsTok {
     if c == '-' { st(a, State::CommentEnd) }
     else if c == '>' { st(emit_comment(a), State::Data) }
     else { comment_plain(push_comment(a, '-'), c) }
 }
+#[verifier::opaque]
 pub open spec fn s_comment_lt(a: AbsTok, c: char) -> AbsTok {
     if c == '!' { st(push_comment(a, c), State::CommentLessThanSignBang) }
     else if c == '<' { push_comment(a, c) }
     else { s_comment(st(a, State::Comment), c) }
 }
+#[verifier::opaque]
 pub open spec fn s_comment_lt_bang(a: AbsTok, c: char) -> AbsTok {
     if c == '-' { st(a, State::CommentLessThanSignBangDash) }
     else { s_comment(st(a, State::Comment), c) }
 }
+#[verifier::opaque]
 pub open spec fn s_comment_end_dash(a: AbsTok, c: char) -> AbsTok {
     if c == '-' { st(a, State::CommentEnd) }
     else { comment_plain(push_comment(a, '-'), c) }
 }
+#[verifier::opaque]
 pub open spec fn s_comment_lt_bang_dash(a: AbsTok, c: char) -> AbsTok {
     if c == '-' { st(a, State::CommentLessThanSignBangDashDash) }
     else { s_comment_end_dash(st(a, State::CommentEndDash), c) }
 }
+#[verifier::opaque]
 pub open spec fn s_comment_end(a: AbsTok, c: char) -> AbsTok {
     if c == '>' { st(emit_comment(a), State::Data) }
     else if c == '!' { st(a, State::CommentEndBang) }
     else if c == '-' { push_comment(a, '-') }
     else { s_comment(st(append_comment(a, seq!['-', '-']), State::Comment), c) }
 }
+#[verifier::opaque]
 pub open spec fn s_comment_lt_bang_dash_dash(a: AbsTok, c: char) -> AbsTok {
     s_comment_end(st(a, State::CommentEnd), c)
 }
+#[verifier::opaque]
 pub open spec fn s_comment_end_bang(a: AbsTok, c: char) -> AbsTok {
     if c == '-' { st(append_comment(a, seq!['-', '-', '!']), State::CommentEndDash) }
     else if c == '>' { st(emit_comment(a), State::Data) }
     else { comment_plain(append_comment(a, seq!['-', '-', '!']), c) }
 }
 // ---- DOCTYPE ----
+#[verifier::opaque]
 pub open spec fn s_before_doctype_name(a: AbsTok, c: char) -> AbsTok {
     if is_ws(c) { a }
     else if c == '\0' { st(push_dt_name(create_doctype(a), '\u{fffd}'), State::DoctypeName) }
     else if c == '>' { st(emit_doctype(force_quirks(create_doctype(a))), State::Data) }
     else { st(push_dt_name(create_doctype(a), lower(c)), State::DoctypeName) }
 }
+#[verifier::opaque]
 pub open spec fn s_doctype(a: AbsTok, c: char) -> AbsTok {
     if is_ws(c) { st(a, State::BeforeDoctypeName) }
     else { s_before_doctype_name(st(a, State::BeforeDoctypeName), c) }
 }
+#[verifier::opaque]
 pub open spec fn s_doctype_name(a: AbsTok, c: char) -> AbsTok {
     if is_ws(c) { st(clear_temp(a), State::AfterDoctypeName) }
     else if c == '>' { st(emit_doctype(a), State::Data) }
     else if c == '\0' { push_dt_name(a, '\u{fffd}') }
     else { push_dt_name(a, lower(c)) }
 }
+#[verifier::opaque]
 pub open spec fn s_bogus_doctype(a: AbsTok, c: char) -> AbsTok {
     if c == '>' { st(emit_doctype(a), State::Data) } else { a }
 }
+#[verifier::opaque]
 pub open spec fn s_after_doctype_keyword(a: AbsTok, k: DoctypeIdKind, c: char) -> AbsTok {
     if is_ws(c) { st(a, State::BeforeDoctypeIdentifier(k)) }
     else if c == '"' { st(clear_dt_id(a, k), State::DoctypeIdentifierDoubleQuoted(k)) }
@@ -451,6 +501,7 @@ pub open spec fn s_after_doctype_keyword(a: AbsTok, k: DoctypeIdKind, c: char) -
     else if c == '>' { st(emit_doctype(force_quirks(a)), State::Data) }
     else { s_bogus_doctype(st(force_quirks(a), State::BogusDoctype), c) }
 }
+#[verifier::opaque]
 pub open spec fn s_before_doctype_id(a: AbsTok, k: DoctypeIdKind, c: char) -> AbsTok {
     if is_ws(c) { a }
     else if c == '"' { st(clear_dt_id(a, k), State::DoctypeIdentifierDoubleQuoted(k)) }
@@ -458,12 +509,14 @@ pub open spec fn s_before_doctype_id(a: AbsTok, k: DoctypeIdKind, c: char) -> Ab
     else if c == '>' { st(emit_doctype(force_quirks(a)), State::Data) }
     else { s_bogus_doctype(st(force_quirks(a), State::BogusDoctype), c) }
 }
+#[verifier::opaque]
 pub open spec fn s_doctype_id_quoted(a: AbsTok, k: DoctypeIdKind, q: char, c: char) -> AbsTok {
     if c == q { st(a, State::AfterDoctypeIdentifier(k)) }
     else if c == '\0' { push_dt_id(a, k, '\u{fffd}') }
     else if c == '>' { st(emit_doctype(force_quirks(a)), State::Data) }
     else { push_dt_id(a, k, c) }
 }
+#[verifier::opaque]
 pub open spec fn s_after_doctype_id(a: AbsTok, k: DoctypeIdKind, c: char) -> AbsTok {
     match k {
         DoctypeIdKind::Public => {
@@ -480,6 +533,7 @@ pub open spec fn s_after_doctype_id(a: AbsTok, k: DoctypeIdKind, c: char) -> Abs
         },
     }
 }
+#[verifier::opaque]
 pub open spec fn s_between_doctype_ids(a: AbsTok, c: char) -> AbsTok {
     if is_ws(c) { a }
     else if c == '>' { st(emit_doctype(a), State::Data) }
@@ -488,15 +542,18 @@ pub open spec fn s_between_doctype_ids(a: AbsTok, c: char) -> AbsTok {
     else { s_bogus_doctype(st(force_quirks(a), State::BogusDoctype), c) }
 }
 // ---- CDATA (buffered: see header) ----
+#[verifier::opaque]
 pub open spec fn s_cdata(a: AbsTok, c: char) -> AbsTok {
     if c == ']' { st(a, State::CdataSectionBracket) }
     else if c == '\0' { emit_c(emit_temp(a), '\0') }
     else { push_temp(a, c) }
 }
+#[verifier::opaque]
 pub open spec fn s_cdata_bracket(a: AbsTok, c: char) -> AbsTok {
     if c == ']' { st(a, State::CdataSectionEnd) }
     else { s_cdata(st(push_temp(a, ']'), State::CdataSection), c) }
 }
+#[verifier::opaque]
 pub open spec fn s_cdata_end(a: AbsTok, c: char) -> AbsTok {
     if c == ']' { push_temp(a, ']') }
     else if c == '>' { st(emit_temp(a), State::Data) }
@@ -504,6 +561,7 @@ pub open spec fn s_cdata_end(a: AbsTok, c: char) -> AbsTok {
 }
 
 /// every state except the two look-ahead states
+#[verifier::opaque]
 pub open spec fn s_simple(a: AbsTok, c: char) -> AbsTok {
     match a.state {
         State::Data => s_data(a, c),
@@ -572,6 +630,7 @@ pub open spec fn pre_match(l: Seq<char>, p: Seq<char>, ci: bool) -> bool {
 pub open spec fn full_match(l: Seq<char>, p: Seq<char>, ci: bool) -> bool { l.len() == p.len() && pre_match(l, p, ci) }
 
 /// re-process already-consumed (and already-counted) characters in the current, non-look-ahead state
+#[verifier::opaque]
 pub open spec fn reprocess(a: AbsTok, l: Seq<char>) -> AbsTok
     decreases l.len()
 {
@@ -616,6 +675,7 @@ pub open spec fn spec_step(a0: AbsTok, c: char) -> AbsTok {
         }
     }
 }
+#[verifier::opaque]
 pub open spec fn run(a: AbsTok, s: Seq<char>) -> AbsTok
     decreases s.len()
 {
